@@ -576,9 +576,17 @@ def check_negated(P, R):
     f = P.func('dd.autoref.Function.negated')
     rets = [n for n in ast.walk(f.node) if isinstance(n, ast.Return)]
     ok = False
-    if len(rets) == 1:
-        t = au.src(rets[0].value).replace(' ', '').strip('()')
-        ok = t in ('self.node<0', '0>self.node')
+    if len(rets) == 1 and isinstance(rets[0].value, ast.Compare) and len(
+            rets[0].value.ops) == 1:
+        c = rets[0].value
+        l, r = au.src(c.left).replace(' ', ''), au.src(
+            c.comparators[0]).replace(' ', '')
+        ok = (l == 'self.node' and r == '0' and isinstance(
+            c.ops[0], ast.Lt)) or (l == '0' and r == 'self.node'
+                                   and isinstance(c.ops[0], ast.Gt))
+    elif len(rets) != 1 or not isinstance(rets[0].value, ast.Compare):
+        R.undecided('R-SIGN', f.qualname, 'negated', 'unrecognised form')
+        return
     if ok:
         R.holds('R-SIGN', f.qualname, 'negated == (node < 0)')
     else:
